@@ -209,11 +209,19 @@ def r2_lexicographic(P, rep, ctx):
     rep.check(sorted(ef) == sorted(FIELDS), "C16.R2", eq.qual, f"__eq__ is the conjunction of == over {FIELDS}", eq.loc(), construct=f"__eq__ fields {ef}",
               message=f"__eq__ compares fields {ef}, the reference is identified by {FIELDS}")
     # hash over the same fields
-    rets = [x.value for x in walk_local(hs.node) if isinstance(x, ast.Return)]
+    hff = F(ctx, hs)
+    state = sorted({x.attr for x in walk_local(hs.node) if isinstance(x, ast.Attribute) and isinstance(x.value, ast.Name) and x.value.id == "self" and x.attr not in FIELDS})
+    stores = [st for st in walk_local(hs.node) if isinstance(st, ast.stmt) for k_, t_ in store_targets(st) if norm(t_).startswith("self.")]
+    rep.check(not state and not stores, "C16.R2", hs.qual, "__hash__ is computed from the identifying fields on every call (no cached state)", hs.loc(), construct="__hash__ state",
+              message=f"__hash__ reads / caches other instance state ({state}): a reference derived with copy(update=...) keeps the stale hash of its origin although it compares equal to a fresh reference")
     hf = None
-    if len(rets) == 1 and isinstance(rets[0], ast.Call) and norm(rets[0].func) == "hash" and len(rets[0].args) == 1 and isinstance(rets[0].args[0], ast.Tuple):
-        hf = [_field_of(e, "self") for e in rets[0].args[0].elts]
+    for _, v in hff.returns():
+        x = hff.xe(v) if v is not None else None
+        if isinstance(x, ast.Call) and norm(x.func) == "hash" and len(x.args) == 1 and isinstance(x.args[0], ast.Tuple):
+            hf = [_field_of(e, "self") for e in x.args[0].elts]
     if hf is None or None in hf:
+        if state or stores:
+            return  # reported above
         raise AnalysisError(f"C16.R2: __hash__ has an unrecognised shape: {norm(hs.node)[:200]}")
     rep.check(sorted(hf) == sorted(ef), "C16.R2", hs.qual, "__hash__ hashes exactly the fields __eq__ compares", hs.loc(), construct=f"__hash__ fields {hf}",
               message=f"__hash__ uses fields {hf} but __eq__ compares {ef}: equal objects / hash consistency broken")
@@ -354,6 +362,15 @@ def r5_sorted_registration(P, rep, ctx):
                 rep.ok("C16.R5", fi.qual, "ordered insertion via bisect.insort", fi.loc(c))
     if n_app < 2:
         raise AnalysisError(f"C16.R5: only {n_app} registration sites found (expected _add_ep and register_in_group)")
+    # registration only ever adds: nothing drops a name's version list (only __init__ resets the registry)
+    for fi in P.functions.values():
+        if not isinstance(fi.node, (ast.FunctionDef, ast.AsyncFunctionDef)) or "_VERSIONS" not in norm(fi.node) or fi.name in ("__init__", "__post_init__"):
+            continue
+        drops = [c for c in local_calls(fi.node) if isinstance(c.func, ast.Attribute) and c.func.attr in ("pop", "clear", "popitem", "remove") and "_VERSIONS" in norm(c.func.value)]
+        drops += [st for st in walk_local(fi.node) if isinstance(st, ast.Delete) and any("_VERSIONS" in norm(t) for t in st.targets)]
+        drops += [st for st in walk_local(fi.node) if isinstance(st, ast.Assign) and any(norm(t).endswith("._VERSIONS") for t in st.targets)]
+        for d_ in drops:
+            rep.fail("C16.R5", fi.qual, f"registry entry dropped: {norm(d_)[:70]}", f"{fi.qual} removes registered versions ({norm(d_)[:70]}): other versions of the plugin are forgotten and resolve()/versions() answer from an incomplete list", fi.loc(d_))
     # versions(): order preserving; plugin-side direction of supports
     fi = P.func(f"{PG}.versions")
     rets = [x.value for x in walk_local(fi.node) if isinstance(x, ast.Return)]
